@@ -5,7 +5,7 @@ from vp.api import verdict, skip, shard
 from vp.symx import pick, native
 
 
-def make(isa, parser, variants, lone_variants, layouts, render, line_ok, comment_tok, mnemonics, file_lines):
+def make(isa, parser, variants, lone_variants, layouts, render, line_ok, comment_tok, mnemonics, file_lines, layout_set=None):
     """variants: operand variants usable at any position; lone_variants: only as a single operand"""
     V = variants
     NV = len(V)
@@ -28,8 +28,8 @@ def make(isa, parser, variants, lone_variants, layouts, render, line_ok, comment
         lo, hi = shard(NV)
         if not (lo <= i < hi):
             return True
-        if mem_last and V[pick(i, NV)][1][0] in ("mem", "cond"):
-            return True       # AArch64: memory operands and condition codes come last
+        if mem_last and V[pick(i, NV)][1][0] in ("mem", "cond", "id"):
+            return True       # AArch64: memory operands, condition codes and labels are not first of two
         ok, nt, sample = native(_pair_concrete, pick(i, NV), pick(j, NV), pick(m, 2))
         return verdict(ok, nontrivial=nt, sample=sample)
 
@@ -37,7 +37,7 @@ def make(isa, parser, variants, lone_variants, layouts, render, line_ok, comment
 
     # reduced variant set for counts 0..4 x layouts
     step = max(1, NV // 6)
-    S = [V[k] for k in range(0, NV, step)][:6]
+    S = list(layout_set) if layout_set is not None else [V[k] for k in range(0, NV, step)][:6]
     NS = len(S)
     NL = len(layouts)
 
@@ -63,8 +63,10 @@ def make(isa, parser, variants, lone_variants, layouts, render, line_ok, comment
             return True
         nn = pick(n, 5)
         idx = [pick(a, NS), pick(b, NS), pick(c, NS), pick(d, NS)]
-        if mem_last and any(S[k][1][0] in ("mem", "cond") for k in idx[:max(nn - 1, 0)]):
+        if mem_last and any(S[k][1][0] in ("mem", "cond", "id") for k in idx[:max(nn - 1, 0)]):
             return True
+        if mem_last and nn == 1 and S[idx[0]][1][0] == "cond":
+            return True       # a condition code is never the only operand
         ok, nt, sample = native(_layout_concrete, nn, idx, pick(lay, NL), pick(m, 2))
         return verdict(ok, nontrivial=nt, sample=sample)
 
